@@ -80,7 +80,7 @@ def wellformed(doc: str, out: str, opts: dict) -> str | None:
             walk(mdast.parse(out))
         except Exception:
             spans = []
-        in_lines = [il.rstrip("\r") for il in doc.split("\n")]
+        in_lines = re.split(r"\r\n|\r|\n", doc)      # the parser reads a lone CR as a line ending too
         for (a0, b0) in spans:
             for l in out[a0:b0].split("\n")[1:-1]:
                 if l != l.rstrip(" \t") and l.strip(" \t>") == "":
